@@ -1796,3 +1796,195 @@ Lemma strip_idem n : strip_root (strip_root n) = strip_root n.
 Proof. unfold strip_root. cbn. rewrite !map_map. reflexivity. Qed.
 Lemma strip_ref n : strip_root (ref n) = ref n.
 Proof. unfold ref. apply strip_idem. Qed.
+
+(* =================================================================== 12. repeated pickle round trips *)
+Fixpoint iter_ref (k : nat) (n : node) : node := match k with O => n | S k' => iter_ref k' (ref n) end.
+
+Theorem trip_pickle_exact c n :
+  wfb n = true -> own_ok n = true ->
+  links_resolve n = true -> links_unlocked n = true -> links_synced n = true -> cown c = true ->
+  trip_pickle (c, n) = Ok (mkC None (root_det c) true, ref n).
+Proof.
+  intros Hw Ho Hr Hu Hs Hc. unfold trip_pickle, dump_root. cbn [fst snd].
+  destruct (@restore_dump n Hw Ho Hr Hu Hs (root_det c) (slash (root_prefix c) (nlab n))) as [s [E1 [E2 E3]]].
+  rewrite E1. unfold ghost_fails. rewrite Hc. cbn [negb andb]. rewrite E3, E2. reflexivity.
+Qed.
+
+Theorem trips_pickle_exact : forall k c n,
+  wfb n = true -> own_ok n = true ->
+  links_resolve n = true -> links_unlocked n = true -> links_synced n = true -> cown c = true ->
+  trips (S k) BPickle (c, n) = Ok (mkC None (root_det c) true, iter_ref (S k) n).
+Proof.
+  induction k as [|k IH]; intros c n Hw Ho Hr Hu Hs Hc.
+  - cbn [trips trip iter_ref]. rewrite trip_pickle_exact; auto.
+  - change (trips (S (S k)) BPickle (c, n))
+      with (match trip BPickle (c, n) with Ok cn' => trips (S k) BPickle cn' | Err e => Err e end).
+    cbn [trip]. rewrite trip_pickle_exact; auto.
+    rewrite IH.
+    + reflexivity.
+    + apply wfb_ref; exact Hw.
+    + rewrite own_ok_ref; exact Ho.
+    + unfold links_resolve. rewrite resolve_ref. exact Hr.
+    + unfold links_unlocked. rewrite unlocked_ref. exact Hu.
+    + unfold links_synced. rewrite synced_ref. exact Hs.
+    + reflexivity.
+Qed.
+
+Lemma same_iter : forall k n, wfb n = true -> same (strip_root n) (iter_ref (S k) n).
+Proof.
+  induction k as [|k IH]; intros n Hw.
+  - apply same_ref; exact Hw.
+  - change (iter_ref (S (S k)) n) with (iter_ref (S k) (ref n)).
+    eapply same_trans; [apply same_ref; exact Hw|].
+    pose proof (IH (ref n) (wfb_ref n Hw)) as H. rewrite strip_ref in H. exact H.
+Qed.
+Lemma iter_no_own : forall k n, no_own_conns (iter_ref (S k) n).
+Proof.
+  induction k as [|k IH]; intros n; [apply ref_no_own|].
+  change (iter_ref (S (S k)) n) with (iter_ref (S k) (ref n)). apply IH.
+Qed.
+
+(* =================================================================== 13. re-running *)
+Lemma forallb_rev {A} (f : A -> bool) l : forallb f (rev l) = forallb f l.
+Proof.
+  induction l as [|x r IH]; [reflexivity|]. cbn [rev forallb]. rewrite forallb_app, IH. cbn. rewrite andb_true_r, andb_comm.
+  reflexivity.
+Qed.
+
+Definition acc_eq (W W' : wiring) : Prop :=
+  forall r rc, forallb (fun e => mems (scoped e) rc) (look (w_sin W) r) =
+               forallb (fun e => mems (scoped e) rc) (look (w_sin W') r).
+
+Section ExecInv.
+  Variables (d s : table) (sh : list (string * list string)) (si si' : table).
+  Let W := mkW d s si sh.
+  Let W' := mkW d s si' sh.
+  Hypothesis Hacc : acc_eq W W'.
+
+  Lemma run_kid_inv st c : run_kid W st c = run_kid W' st c.
+  Proof. reflexivity. Qed.
+  Lemma deliver_inv st fr : deliver W st fr = deliver W' st fr.
+  Proof.
+    unfold deliver. destruct fr as [f r]. destruct (String.eqb (snd r) "run"); [reflexivity|].
+    destruct (String.eqb (snd r) "accumulate_and_run"); [|reflexivity].
+    rewrite (Hacc r). reflexivity.
+  Qed.
+  Lemma loop_inv : forall fuel st, loop fuel W st = loop fuel W' st.
+  Proof.
+    induction fuel as [|f IH]; intros st; cbn [loop]; destruct (st_q st) as [|fr q]; try reflexivity.
+    rewrite deliver_inv. destruct (deliver W' _ fr) as [st'|[|]]; auto.
+  Qed.
+  Lemma starts_inv : forall ls st, starts W st ls = starts W' st ls.
+  Proof.
+    induction ls as [|c r IH]; intros st; [reflexivity|]. cbn [starts]. rewrite run_kid_inv.
+    destruct (run_kid W' st c); [apply IH|reflexivity].
+  Qed.
+End ExecInv.
+
+Lemma look_refill f E k : look (refill f E) k = if has_key E k then f k else [].
+Proof. unfold look. rewrite assoc_refill. destruct (has_key E k); reflexivity. Qed.
+
+Lemma list_eqb_c a b : list_eqb cref_eqb a b = true -> a = b.
+Proof.
+  revert b. induction a as [|x r IH]; intros [|y t]; cbn; try discriminate; [reflexivity|].
+  intros H. apply andb_true_iff in H. destruct H as [H1 H2]. apply cref_eqb_eq in H1. f_equal; auto.
+Qed.
+
+Lemma canon_sig_eq K : NoDup (keys (soutv K)) -> sig_canon_level K = true ->
+  refill (fun o => rev (canon (sinv K) o)) (soutv K) = soutv K.
+Proof.
+  intros Hn Hc. unfold sig_canon_level in Hc. unfold refill. rewrite <- (map_id (soutv K)) at 2.
+  apply map_ext_in. intros [k l] Hin. cbn [fst].
+  pose proof (forallb_In _ _ _ Hc Hin) as E. cbn [fst snd] in E. apply list_eqb_c in E. rewrite <- E. reflexivity.
+Qed.
+
+Lemma vals_in_tk F K : vals_in (map (tk F) K) = vals_in K.
+Proof.
+  unfold vals_in. induction K as [|k r IH]; [reflexivity|]. cbn [map flat_map]. rewrite IH. f_equal.
+  rewrite tk_lab. unfold tk, putk. cbn [nins]. rewrite map_map, inner_ins. reflexivity.
+Qed.
+Lemma vals_out_tk F K : vals_out (map (tk F) K) = vals_out K.
+Proof.
+  unfold vals_out. induction K as [|k r IH]; [reflexivity|]. cbn [map flat_map]. rewrite IH. f_equal.
+  rewrite tk_lab. unfold tk, putk. cbn [nouts]. rewrite map_map, inner_outs. reflexivity.
+Qed.
+Lemma rcvd_tk F K : rcvd_of (map (tk F) K) = rcvd_of K.
+Proof.
+  unfold rcvd_of. induction K as [|k r IH]; [reflexivity|]. cbn [map flat_map]. rewrite IH. f_equal.
+  rewrite tk_lab. unfold tk, putk. cbn [nsin]. rewrite map_map, inner_sin. reflexivity.
+Qed.
+Lemma shape_tk F K : map (fun k => (nlab k, map dlab (nins k))) (map (tk F) K) = map (fun k => (nlab k, map dlab (nins k))) K.
+Proof. rewrite map_map. apply map_ext. intros k. rewrite tk_lab, tk_ins_labs. reflexivity. Qed.
+
+Lemma root_ready_din K K' : din K' = din K -> root_ready K' = root_ready K.
+Proof.
+  (* readiness of the workflow reads, per child input, only whether it is connected and holds data *)
+  intros _. reflexivity.
+Abort.
+
+Lemma root_ready_relevel K : NoDup (keys (din K)) -> root_ready (relevel (map inner K)) = root_ready K.
+Proof.
+  intros Hn. unfold root_ready, relevel, put. rewrite map_map, forallb_map. apply forallb_ext_in. intros k Hk.
+  unfold putk. cbn [nins]. rewrite forallb_map, inner_ins, inner_lab. apply forallb_ext_in. intros c Hc.
+  cbn [set_dcon dcon dval]. rewrite din_inner.
+  assert (E : look (din K) (nlab k, dlab c) = dcon c).
+  { apply look_In; [exact Hn|]. unfold din. apply in_flat_map. exists k. split; [exact Hk|].
+    apply in_map_iff. exists c. auto. }
+  rewrite E. reflexivity.
+Qed.
+
+Theorem exec_ref fuel n :
+  wfb n = true -> sig_canon_level (nkids n) = true -> exec fuel (ref n) = exec fuel n.
+Proof.
+  intros Hw Hc. destruct (wfb_parts _ Hw) as [_ [Lk _]]. destruct (level_keys _ Lk) as [Ndi [Ndo [Nsi Nso]]].
+  unfold exec. rewrite ref_eq. cbn [nkids nstart].
+  rewrite (root_ready_relevel _ Ndi). destruct (root_ready (nkids n)); [|reflexivity].
+  destruct (relevel_as_map (nkids n)) as [F EX].
+  unfold wiring_of. rewrite EX at 5 6 7 8. rewrite vals_in_tk, vals_out_tk, rcvd_tk, shape_tk.
+  unfold relevel. rewrite din_put, soutv_put, sinv_put, !din_inner, !sinv_inner, soutv_inner.
+  rewrite (refill_look Ndi). rewrite (canon_sig_eq _ Nso Hc).
+  assert (Hacc : acc_eq (mkW (din (nkids n)) (soutv (nkids n)) (refill (fun i => rev (look (sinv (nkids n)) i)) (sinv (nkids n)))
+                             (map (fun k => (nlab k, map dlab (nins k))) (nkids n)))
+                        (mkW (din (nkids n)) (soutv (nkids n)) (sinv (nkids n))
+                             (map (fun k => (nlab k, map dlab (nins k))) (nkids n)))).
+  { intros r rc. cbn [w_sin]. rewrite look_refill. destruct (has_key (sinv (nkids n)) r) eqn:Hk.
+    - apply forallb_rev.
+    - rewrite look_nokey; [reflexivity|]. intros H. apply has_key_In in H. congruence. }
+  rewrite (starts_inv Hacc).
+  destruct (starts _ _ (nstart n)) as [st|[|]]; try reflexivity.
+  apply (loop_inv Hacc).
+Qed.
+
+Lemma canon_refill_mem g E o :
+  (forall k l, In (k, l) E -> memb cref_eqb o (g k) = memb cref_eqb o l) -> canon (refill g E) o = canon E o.
+Proof.
+  unfold canon, refill. induction E as [|[k l] r IH]; intros H; [reflexivity|]. cbn [map filter fst snd].
+  rewrite (H k l (or_introl eq_refl)). destruct (memb cref_eqb o l); cbn [map fst]; rewrite IH; auto;
+    intros k' l' Hin; apply H; right; exact Hin.
+Qed.
+
+Lemma sig_canon_relevel K : level_ok K = true -> sig_canon_level (relevel K) = true.
+Proof.
+  intros Hl. destruct (level_keys _ Hl) as [_ [_ [Nsi Nso]]].
+  unfold sig_canon_level, relevel. rewrite soutv_put, sinv_put. apply forallb_forall. intros [k l] Hin.
+  apply in_refill in Hin. destruct Hin as [-> _]. cbn [fst snd].
+  rewrite canon_refill_mem.
+  - clear. generalize (rev (canon (sinv K) k)). induction l as [|x r IH]; [reflexivity|]. cbn. rewrite cref_eqb_refl, IH. reflexivity.
+  - intros k' l' Hin'. rewrite (look_In _ _ _ Nsi Hin').
+    destruct (memb cref_eqb k l') eqn:M.
+    + apply memb_In_c. apply -> in_rev. apply memb_In_c. exact M.
+    + apply memb_nIn_c. intros H. apply in_rev in H. apply memb_In_c in H. congruence.
+Qed.
+
+Lemma sig_canon_ref n : wfb n = true -> sig_canon_level (nkids (ref n)) = true.
+Proof.
+  intros Hw. destruct (wfb_parts _ Hw) as [_ [Lk _]]. rewrite ref_eq. cbn [nkids].
+  apply sig_canon_relevel. unfold level_ok. rewrite din_inner, dout_inner, sinv_inner, soutv_inner. exact Lk.
+Qed.
+
+Theorem exec_iter fuel : forall k n,
+  wfb n = true -> sig_canon_level (nkids n) = true -> exec fuel (iter_ref k n) = exec fuel n.
+Proof.
+  induction k as [|k IH]; intros n Hw Hc; [reflexivity|]. cbn [iter_ref].
+  rewrite IH; [apply exec_ref; auto | apply wfb_ref; exact Hw | apply sig_canon_ref; exact Hw].
+Qed.
